@@ -5,10 +5,16 @@ package archiver
 // C10 safety sweep (govc `sweep`): index / slice / division expressions must not panic on
 // server-controlled input. Comment-only file.
 
+// copyWithTimeout returns nil only after a Read of the source reported io.EOF (C02: the body
+// is read to its end, so the wire capture the WARC writer records is complete).
 //@ func copyWithTimeout
-//@   property C10
+//@   property C10,C02
 //@   opaque
 //@   sweep idx slice div assert
+//@   attr proved to-eof
+//@   modifies *
+//@   loop for invariant [eof-count] @C02 io.nEOF() >= old(io.nEOF())
+//@   ensures [to-eof] @C02 result == nil ==> io.nEOF() > old(io.nEOF()) // C02: ProcessBody reads the body to EOF on every branch
 //@ func copyWithTimeoutN
 //@   property C10
 //@   opaque
